@@ -193,7 +193,7 @@ def _get_reverse_oneshot_params(
         points: RolandLoopPoints
 ) -> SampleParams:
     offset_sample = points.start
-    num_samples = points.sustain_end - offset_sample + 1
+    num_samples = max(0, points.sustain_end - offset_sample + 1)
     stream_size = ROLAND_SAMPLE_WIDTH * num_samples
 
     stream_result = StreamReversed(
@@ -218,7 +218,7 @@ def _get_reverse_loop_params(
         points: RolandLoopPoints
 ) -> SampleParams:
     offset_sample = points.start
-    num_samples = points.sustain_end - offset_sample + 1
+    num_samples = max(0, points.sustain_end - offset_sample + 1)
     stream_size = ROLAND_SAMPLE_WIDTH * num_samples
 
     stream_result = StreamReversed(
